@@ -414,6 +414,7 @@ class Frame:
 OPS = {ast.Add: "+", ast.Sub: "-", ast.Mult: "*", ast.Div: "/", ast.Mod: "%", ast.Pow: "**", ast.FloorDiv: "//", ast.BitOr: "|", ast.BitAnd: "&"}
 CMPS = {ast.Eq: "==", ast.NotEq: "!=", ast.Is: "is", ast.IsNot: "is not", ast.In: "in", ast.NotIn: "not in", ast.Lt: "<", ast.LtE: "<=", ast.Gt: ">", ast.GtE: ">="}
 TRANSPARENT = {"str", "list", "tuple", "iter"}
+MUTATING = {"append", "extend", "add", "insert", "update", "pop", "remove", "clear", "sort", "reverse", "setdefault", "discard", "popitem"}
 IGNORED_CALLS = ("logger.", "logging.", "print", "warnings.")
 
 
@@ -431,7 +432,7 @@ class AV:
     @staticmethod
     def default_inline(callee: Func) -> bool:
         n = callee.name
-        return (n.startswith("_") and not n.startswith("__") and n not in NO_INLINE and not n.startswith("_print_")) or "<locals>" in callee.qualname
+        return (n.startswith("_") and not n.startswith("__") and n not in NO_INLINE and not (n.startswith("_print_") and n[7:8].isupper())) or "<locals>" in callee.qualname
 
     # -- entry points ---------------------------------------------------------------------------------
     def function(self, f: Func, args: dict | None = None, want_env: bool = False):
@@ -997,6 +998,23 @@ class AV:
             v = ("call", show(tgt), args, kwargs_t)
             self.call_log.append((fr.func, n, v))
             return v
+        # mutation of a tracked local inside an expression
+        if isinstance(fn, ast.Attribute) and isinstance(fn.value, ast.Name) and fn.value.id in fr.env and fn.attr in MUTATING:
+            name = fn.value.id
+            cur = fr.env[name]
+            if fn.attr == "pop" and not args and cur[0] == "list" and cur[1]:
+                last = cur[1][-1]
+                if last[0] not in ("spread", "when"):
+                    fr.env[name] = ("list", cur[1][:-1])
+                    return last
+                if last[0] == "spread" and last[1][0] == "comp":
+                    fr.env[name] = mk_list(cur[1][:-1] + (("spread", ("slice", last[1], NONE, C(-1))),))
+                    return ("sub", last[1], C(-1))
+            if fn.attr in ("append", "extend", "add", "insert", "update") and _is_seq(cur) or (fn.attr == "update" and cur[0] == "dict"):
+                self._effect(n, fr)
+                return NONE
+            fr.env[name] = unk(f"{name}.{fn.attr}(...) not modelled")
+            return unk(f"{name}.{fn.attr}(...) not modelled")
         # builtins and string / list methods with exact models
         m = self._builtin(n, d_, args, kwargs, fr)
         if m is not None:
@@ -1009,7 +1027,7 @@ class AV:
             if v is not None:
                 return v
         if isinstance(fn, ast.Attribute):
-            if d_ is not None and d_.split(".")[0] not in fr.env:
+            if d_ is not None and d_.split(".")[0] not in fr.env and d_.split(".")[0] not in self._module_env(fr.rel):
                 v = ("call", d_, args, kwargs_t)
             else:
                 v = ("mcall", self._ev(fn.value, fr), fn.attr, args, kwargs_t)
